@@ -37,6 +37,7 @@ pub struct Ctx {
     findings: Vec<Finding>,
     max_violation_files: usize,
     seen_viol_sigs: HashSet<String>,
+    pub sig_tally: BTreeMap<String, u64>,
 }
 
 fn load_findings() -> Vec<Finding> {
@@ -84,6 +85,7 @@ impl Ctx {
             findings: load_findings(),
             max_violation_files: 8,
             seen_viol_sigs: HashSet::new(),
+            sig_tally: BTreeMap::new(),
         }
     }
     pub fn quick(&self) -> bool {
@@ -131,6 +133,7 @@ impl Ctx {
             return false;
         }
         self.count("violations_total", 1);
+        *self.sig_tally.entry(sig.to_string()).or_insert(0) += 1;
         let first_of_sig = self.seen_viol_sigs.insert(sig.to_string());
         if self.violations.len() < self.max_violation_files && (first_of_sig || self.violations.len() < 3) {
             let dir = format!("{}/replay/{}", VERIF_DIR, self.prop);
@@ -194,6 +197,7 @@ impl Ctx {
             "wall_s": (wall * 1000.0).round() / 1000.0,
             "violations": nviol,
             "violation_files": self.violations,
+            "violation_signatures": self.sig_tally,
             "verdict": verdict,
             "inconclusive_reasons": self.inconclusive,
         });
@@ -207,6 +211,9 @@ impl Ctx {
             _ => format!("{}/{}.json", dir, self.prop),
         };
         std::fs::write(&path, serde_json::to_string_pretty(&ev).unwrap()).expect("write evidence");
+        for (sg, n) in self.sig_tally.iter() {
+            println!("  unexplained signature x{}: {}", n, sg);
+        }
         println!(
             "[{}] tier={} seed={} evaluations={} distinct_nontrivial={} violations={} known_hits={:?} wall={:.1}s verdict={}",
             self.prop,
